@@ -13,6 +13,7 @@ R11.4  every float->int conversion is guarded exactly (decided point-wise in C02
        conversion as undefined behaviour; here: each such cast is inside a conditional chain)
 R11.8  count-leading/trailing-zero builtins are undefined for a zero argument: the argument, as converted to the builtin's
        parameter width, must be the value that the dominating non-zero test examined (a 64-bit test does not protect a 32-bit builtin)
+R11.9  every declared local of an emitted function carries its own `= 0` initialiser (no read of an indeterminate object)
 R11.5  no typed dereference of linear memory in the little-endian configuration (only byte copies / atomics)
 R11.6  compile witness: one translation unit containing every template compiles without errors with gcc and clang
        as -std=gnu89 (thorough: gnu99, gnu11, gnu17) with implicit declarations and incompatible pointers as errors
@@ -481,6 +482,9 @@ def run(chk):
     chk.extra['templates'] = len(tpls)
     chk.extra['operators_scanned'] = n_ops
     chk.extra['runtime_functions'] = sorted(callees)
+    # R11.9: WebAssembly locals are zero on entry and may be read before any write - in the emitted C each local therefore needs its
+    # own initialiser, otherwise the read is of an indeterminate object (results differ between optimisation levels); shared with C03
+    c03.check_function_body(chk, tus, tabs, rule='R11.9')
     compile_witness(chk, h.source(), chk.tier)
     check_string_positions(chk, tus)
     chk.floor('R11.3', 8)
